@@ -22,6 +22,10 @@ chk("C01", "fbbsim", "exploration",
     TB + " Mailbox handler is the in-memory reference handler.",
     "deterministic simulation (synctest bubble, seeded link schedule) + history oracle", "DESIGN.md 3 C01")
 
+chk("C02", "fbbsim", "fault_enumeration",
+    "Chains of sessions between the same two mailboxes: 0-2 seeded faulty sessions, the target session, then fault-free sessions until one completes. For each seeded scenario a pilot records the target session's transcript; then every fault is executed as its own chain in its own simulated run: the link cut after every delivered byte offset of either direction (EOF at both ends; later writes fail or vanish silently), and a storage error on the i-th inbound message for every i at either station - with the in-memory reference handler and with the real mailbox.DirHandler on the simulated disk (disk full with a short write). Oracle over the global callback history: bounded simulated return time, sent only if the peer's handler completely received it, byte identity of everything handed to a handler, never stored or reported twice, and complete delivery after the first clean session.",
+    TB + " Quick tier cuts at most 2500 offsets per direction (both ends of the transcript plus a seeded sample); DirHandler runs through the os/ioutil/log import swap on sim/simfs.",
+    "fault enumeration (every cut offset, every failing store) in deterministic simulation with history oracle", "DESIGN.md 3 C02")
 chk("C03", "fbbsim", "exploration",
     "A real fbb.Session faces the reference peer in Byzantine mode: it follows the real protocol to reach deep states and damages its own output at one seeded layer (raw bytes, handshake, proposals, answers, frames, LZHUF payload, message, pure garbage). Oracle: no panic, no process death (worker isolation), Exchange returns within 5 simulated minutes after the remote closed, connection closed, allocation bounded relative to the bytes received; CPU spins are caught by a wall-clock watchdog and confirmed in a fresh process. Seeded sampling of an unbounded input space.",
     TB + " Spin detection relies on a real-time watchdog (30 s for millisecond runs).",
